@@ -1,10 +1,18 @@
 //! pv-harness-bld: drives the real pilota-build.
 //!
 //!   pv-harness-bld gen <thrift|pb> <single|split|workspace|workspace-split> <out> [flags] -- <idl>...
-//!       flags: --keep  --no-change-case  --no-ignore-unused  --include <dir>  --touch-all
+//!       flags: --keep  --no-change-case  --no-ignore-unused  --include <dir>  --dump <file>
+//!       --dump writes, before emission, one line per codegen item in the order pilota-build will hand
+//!       them to write_items (single/split: Context.codegen_items; workspace: location_map iteration
+//!       order, which is the per-crate item order of group_defs):
+//!         I <mod path, comma separated, - when empty> <kind prefix> <Display of the raw name> <Display of rust_name>
 //!       runs Builder::compile_with_config in this process; prints one status line
 //!       `OK` | `PANIC <message>`; exit status 0 / 101 (rustfmt failure makes pilota-build
 //!       call exit(code) itself).
+//!   pv-harness-bld seeds
+//!       prints the iteration order of a std HashMap, an ahash AHashMap and a DashMap holding the keys 0..32
+//!       (one line each) -- lets the C17 check confirm that independent processes really get different
+//!       hash seeds in this build
 //!   pv-harness-bld lines
 //!       one query per stdin line, one answer per stdout line (naming / path functions):
 //!         disp <ident>                     Symbol's Display
@@ -17,7 +25,53 @@ use std::path::PathBuf;
 use std::sync::{Arc, Mutex};
 
 use pilota_build::middle::resolver::{DefaultPathResolver, PathResolver, WorkspacePathResolver};
-use pilota_build::{Builder, IdentName, IdlService, Output, Symbol};
+use pilota_build::db::RirDatabase;
+use pilota_build::{Builder, Context, DefId, IdentName, IdlService, Output, Plugin, Symbol};
+
+/// dumps the codegen items (input of write_items) -- used by the C17 layout correspondence
+struct DumpPlugin {
+    path: PathBuf,
+    workspace: bool,
+}
+
+impl Plugin for DumpPlugin {
+    fn on_codegen_uint(&mut self, cx: &Context, items: &[DefId]) {
+        let ids: Vec<DefId> = if self.workspace {
+            cx.location_map.iter().map(|(k, _)| *k).collect()
+        } else {
+            items.to_vec()
+        };
+        let mut out = String::new();
+        for def_id in ids {
+            let item = match cx.item(def_id) {
+                Some(i) => i,
+                None => continue,
+            };
+            let prefix = match &*item {
+                pilota_build::rir::Item::Message(_) => "message",
+                pilota_build::rir::Item::Enum(_) => "enum",
+                pilota_build::rir::Item::Service(_) => "service",
+                pilota_build::rir::Item::NewType(_) => "new_type",
+                pilota_build::rir::Item::Const(_) => "const",
+                pilota_build::rir::Item::Mod(_) => "mod",
+            };
+            let mp = cx.mod_path(def_id);
+            let mps = if mp.is_empty() {
+                "-".to_string()
+            } else {
+                mp.iter().map(|s| (&**s).to_string()).collect::<Vec<_>>().join(",")
+            };
+            out.push_str(&format!(
+                "I {} {} {} {}\n",
+                mps,
+                prefix,
+                item.symbol_name(),
+                cx.rust_name(def_id)
+            ));
+        }
+        std::fs::write(&self.path, out).unwrap();
+    }
+}
 
 fn usage() -> ! {
     eprintln!("usage: pv-harness-bld gen <thrift|pb> <single|split|workspace|workspace-split> <out> [flags] -- <idl>... | lines");
@@ -32,6 +86,7 @@ fn main() {
     match args[1].as_str() {
         "gen" => gen(&args[2..]),
         "lines" => lines(),
+        "seeds" => seeds(),
         _ => usage(),
     }
 }
@@ -47,6 +102,7 @@ fn gen(a: &[String]) {
     let mut change_case = true;
     let mut ignore_unused = true;
     let mut includes: Vec<PathBuf> = vec![];
+    let mut dump: Option<PathBuf> = None;
     let mut files: Vec<PathBuf> = vec![];
     let mut i = 3;
     let mut in_files = false;
@@ -62,6 +118,10 @@ fn gen(a: &[String]) {
                 "--include" => {
                     i += 1;
                     includes.push(PathBuf::from(&a[i]));
+                }
+                "--dump" => {
+                    i += 1;
+                    dump = Some(PathBuf::from(&a[i]));
                 }
                 "--" => in_files = true,
                 _ => usage(),
@@ -99,21 +159,32 @@ fn gen(a: &[String]) {
     };
     let services: Vec<IdlService> = files.iter().map(|p| IdlService::from_path(p.clone())).collect();
     let keep_files: Vec<PathBuf> = if keep { files.clone() } else { vec![] };
+    let workspace = mode.starts_with("workspace");
     let r = catch_unwind(AssertUnwindSafe(|| match kind.as_str() {
-        "thrift" => Builder::thrift()
-            .include_dirs(includes.clone())
-            .ignore_unused(ignore_unused)
-            .change_case(change_case)
-            .split_generated_files(split)
-            .keep_unknown_fields(keep_files.clone())
-            .compile_with_config(services, output),
-        "pb" => Builder::protobuf()
-            .include_dirs(includes.clone())
-            .ignore_unused(ignore_unused)
-            .change_case(change_case)
-            .split_generated_files(split)
-            .keep_unknown_fields(keep_files.clone())
-            .compile_with_config(services, output),
+        "thrift" => {
+            let mut b = Builder::thrift()
+                .include_dirs(includes.clone())
+                .ignore_unused(ignore_unused)
+                .change_case(change_case)
+                .split_generated_files(split)
+                .keep_unknown_fields(keep_files.clone());
+            if let Some(p) = dump.clone() {
+                b = b.plugin(DumpPlugin { path: p, workspace });
+            }
+            b.compile_with_config(services, output)
+        }
+        "pb" => {
+            let mut b = Builder::protobuf()
+                .include_dirs(includes.clone())
+                .ignore_unused(ignore_unused)
+                .change_case(change_case)
+                .split_generated_files(split)
+                .keep_unknown_fields(keep_files.clone());
+            if let Some(p) = dump.clone() {
+                b = b.plugin(DumpPlugin { path: p, workspace });
+            }
+            b.compile_with_config(services, output)
+        }
         _ => usage(),
     }));
     let stdout = std::io::stdout();
@@ -129,6 +200,17 @@ fn gen(a: &[String]) {
             std::process::exit(101);
         }
     }
+}
+
+fn seeds() {
+    let keys: Vec<String> = (0..32).map(|i| format!("k{i}")).collect();
+    let std_map: std::collections::HashMap<String, u32> = keys.iter().cloned().zip(0..).collect();
+    let a_map: ahash::AHashMap<String, u32> = keys.iter().cloned().zip(0..).collect();
+    let d_map: dashmap::DashMap<String, u32> = keys.iter().cloned().zip(0..).collect();
+    let j = |v: Vec<u32>| v.iter().map(|x| x.to_string()).collect::<Vec<_>>().join(",");
+    println!("std {}", j(std_map.values().copied().collect()));
+    println!("ahash {}", j(a_map.values().copied().collect()));
+    println!("dashmap {}", j(d_map.iter().map(|kv| *kv.value()).collect()));
 }
 
 fn segs(s: &str) -> Vec<Symbol> {
